@@ -211,7 +211,9 @@ void free_memory_list::deallocate(void* ptr, std::size_t n) noexcept
     else
     {
         auto mem = detail::debug_fill_free(ptr, n, 0);
-        insert_impl(mem, n);
+        // the allocation took every node it touched, give all of them back
+        auto no_nodes = n / node_size_ + (n % node_size_ != 0u ? 1u : 0u);
+        insert_impl(mem, no_nodes * node_size_);
     }
 }
 
@@ -509,8 +511,10 @@ void ordered_free_memory_list::deallocate(void* ptr, std::size_t n) noexcept
         deallocate(ptr);
     else
     {
-        auto mem  = detail::debug_fill_free(ptr, n, 0);
-        auto prev = insert_impl(mem, n);
+        auto mem = detail::debug_fill_free(ptr, n, 0);
+        // the allocation took every node it touched, give all of them back
+        auto no_nodes = n / node_size_ + (n % node_size_ != 0u ? 1u : 0u);
+        auto prev     = insert_impl(mem, no_nodes * node_size_);
 
         last_dealloc_      = static_cast<char*>(mem);
         last_dealloc_prev_ = prev;
